@@ -482,7 +482,10 @@ func tryCanary(obligation, repo, verif, work string, rr *ReplayResult) bool {
 	if err != nil {
 		return false
 	}
-	var idx map[string]struct{ File, Pkgdir, Input string }
+	var idx map[string]struct {
+		File, Pkgdir, Input string
+		AnyFail            bool `json:"any_fail"`
+	}
 	if json.Unmarshal(b, &idx) != nil {
 		return false
 	}
@@ -511,6 +514,12 @@ func tryCanary(obligation, repo, verif, work string, rr *ReplayResult) bool {
 	rr.TestOutput = trunc(txt, 3000)
 	rr.How += "; canary input: " + e.Input
 	if strings.Contains(txt, "VERIF-REPLAY-VIOLATED") {
+		rr.Reproduced = true
+		return true
+	}
+	// canaries derived from the demonstration tests of seeded changes have no marker: the test itself failing
+	// (it ran - not a build error - and reported FAIL) is the reproduction
+	if e.AnyFail && strings.Contains(txt, "--- FAIL: TestVerifReplay") {
 		rr.Reproduced = true
 		return true
 	}
